@@ -546,7 +546,7 @@ static void one_run(const char *line)
         x[n] = 777.0;
         optf = -12345.678;
         ncalls = nobj = nccalls = 0;
-        vclock = 0;
+        vclock = gethex(line, "clock0", 0.0);   /* the virtual clock need not start at 0 (a later run in a long-lived thread) */
         depth = 0;
         if (getint(line, "reseed", 0) && getint(line, "seed", -1) >= 0) nlopt_srand((unsigned long) getint(line, "seed", 0));
         getters("pre", target);
